@@ -174,19 +174,20 @@ impl<'g, K, V> Iterator for NodeIter<'g, K, V> {
                         // since we want to iterate over all entries, TreeBins
                         // are also traversed via the `next` pointers of their
                         // contained node
-                        e = Some(
-                            // safety: `bin` was read under our guard, at which
-                            // point the tree was valid. Since our guard marks
-                            // the current thread as active, the TreeNodes remain valid for
-                            // at least as long as we hold onto the guard.
-                            // Structurally, TreeNodes always point to TreeNodes, so this is sound.
-                            &unsafe {
-                                TreeNode::get_tree_node(
-                                    tree_bin.first.load(Ordering::SeqCst, self.guard),
-                                )
-                            }
-                            .node,
-                        );
+                        let first = tree_bin.first.load(Ordering::SeqCst, self.guard);
+                        // a concurrent removal may have emptied the bin: `first` is
+                        // null between the removal of the last node and the
+                        // replacement of the bin
+                        if !first.is_null() {
+                            e = Some(
+                                // safety: `bin` was read under our guard, at which
+                                // point the tree was valid. Since our guard marks
+                                // the current thread as active, the TreeNodes remain valid for
+                                // at least as long as we hold onto the guard.
+                                // Structurally, TreeNodes always point to TreeNodes, so this is sound.
+                                &unsafe { TreeNode::get_tree_node(first) }.node,
+                            );
+                        }
                     }
                     BinEntry::TreeNode(_) => unreachable!(
                         "The head of a bin cannot be a TreeNode directly without BinEntry::Tree"
